@@ -5,6 +5,7 @@ import ChessVerif.Lemmas.GivesCheckSpec
 import ChessVerif.Lemmas.LegalFacts
 import ChessVerif.Lemmas.GivesCheckEpSpec
 import ChessVerif.Lemmas.GivesCheckCastleSpec
+import ChessVerif.Lemmas.Shows
 import ChessVerif.Lemmas.WfHyp
 import ChessVerif.Lemmas.LegalShape
 import ChessVerif.Lemmas.OKDefs
@@ -254,5 +255,14 @@ set_option maxRecDepth 100000 in
 example : Spec.wf (Chess.absPos c15CastlePos) = true ∧ (⟨4, 6, 0⟩ : Spec.SMove) ∈ Spec.legalMoves (Chess.absPos c15CastlePos) ∧
     Spec.isCastle c15CastlePos.board ⟨4, 6, 0⟩ = true ∧
     moveGivesCheck c15CastlePos (codeOf (Chess.absPos c15CastlePos) ⟨4, 6, 0⟩) = true := by decide +kernel
+
+/-- **C15 on every position of every legal game from the initial position and every legal move**: capture, quiet and gives-check
+    tell the truth -/
+theorem C15_reachable (p : Position) (ms : List Spec.SMove) (h : Shows p ms) (m : Spec.SMove) (hm : m ∈ Spec.legalMoves (Chess.absPos p)) :
+    moveIsCapture p (codeOf (Chess.absPos p) m) = Spec.isCaptureMove (Chess.absPos p) m ∧
+    moveIsQuiet p (codeOf (Chess.absPos p) m) = (!Spec.isCaptureMove (Chess.absPos p) m && decide (m.promo = 0)) ∧
+    moveGivesCheck p (codeOf (Chess.absPos p) m) = Spec.inCheck (Spec.apply (Chess.absPos p) m).board (1 - p.side) :=
+  have hwf := wf_of_shows p ms h
+  ⟨(C15_capture_quiet_full p m hwf hm).1, (C15_capture_quiet_full p m hwf hm).2, C15_gives_check_full p hwf m hm⟩
 
 end Chess.Props
